@@ -4,6 +4,7 @@ import Req.C07.DigestAlg
 import Req.C07.H2Settings
 import Req.Props.C07Budget
 import Req.Lemmas.C05Frag
+import Req.H2.Conn
 /-!
 C07 (round 5) — budgets and totality over SEQUENCES: every response of a kept-alive HTTP/1.1
 connection, every field section of an HTTP/3 response, every SETTINGS frame of an HTTP/2 connection,
@@ -632,6 +633,21 @@ theorem h2_header_writer_terminates (fs : List (List (Nat × Nat))) (p' : Peer)
   · split
     · next hc => simp at hc; omega
     · exact ⟨_, rfl⟩
+
+/-- **h2_body_writer_progress**: the request-body writer — `awaitFlowControl` takes
+`min(available, len(remain), cc.maxFrameSize)` bytes per DATA frame (model `H2.Conn.awaitTake` of
+C06) — makes progress on every round after any accepted SETTINGS history: with window and data
+available it takes at least one byte; with a frame size of 0 it would take none, for ever. -/
+theorem h2_body_writer_progress (fs : List (List (Nat × Nat))) (p' : Peer)
+    (ha : applyFrames {} fs = .ok p') (a maxBytes : Int) (h1 : 1 ≤ a) (h2 : 1 ≤ maxBytes) :
+    1 ≤ Req.H2.Conn.awaitTake a maxBytes p'.maxFrameSize ∧
+    Req.H2.Conn.awaitTake a maxBytes 0 = 0 := by
+  have h := h2_settings_frame_size_inv fs {} p' frameSizeOk_default ha
+  unfold FrameSizeOk minFrameSize at h
+  unfold Req.H2.Conn.awaitTake
+  constructor
+  · simp only; (repeat' split) <;> omega
+  · simp only; (repeat' split) <;> omega
 
 /-- **h2_zero_frame_size_spins**: what the range check prevents — with a frame size of 0 every
 iteration of the loop writes an empty frame and consumes nothing: whatever number of iterations is
